@@ -49,6 +49,8 @@ func checkC37(c *core.Ctx) {
 	ruleQueryDefaults(c)
 	ruleQueryParamsFlow(c)
 	ruleQueryParamsKeys(c)
+	ruleSortOrderOnlyWhenGiven(c)
+	ruleTemplateResolutionStateless(c)
 }
 
 type queryArm struct {
